@@ -95,6 +95,10 @@ func (enc *encryptInfo) publicInfo() *Encryption {
 type filterCrypt struct {
 	enc *encryptInfo
 	ref Reference
+
+	// embeddedFile is set for embedded file streams: these use the /EFF
+	// crypt filter instead of /StmF when they are read.
+	embeddedFile bool
 }
 
 // Info implements the [Filter] interface.
@@ -110,7 +114,11 @@ func (f *filterCrypt) Encode(_ Version, w io.WriteCloser) (io.WriteCloser, error
 
 // Decode implements the [Filter] interface.
 func (f *filterCrypt) Decode(_ Version, r io.Reader, _ *membudget.Budget) (io.ReadCloser, error) {
-	decrypted, err := f.enc.DecryptStream(f.ref, r)
+	cf := f.enc.stmF
+	if f.embeddedFile {
+		cf = f.enc.efF
+	}
+	decrypted, err := f.enc.decryptStreamWith(cf, f.ref, r)
 	if err != nil {
 		return nil, err
 	}
@@ -501,7 +509,12 @@ func (enc *encryptInfo) EncryptStream(ref Reference, w io.WriteCloser) (io.Write
 }
 
 func (enc *encryptInfo) DecryptStream(ref Reference, r io.Reader) (io.Reader, error) {
-	cf := enc.stmF
+	return enc.decryptStreamWith(enc.stmF, ref, r)
+}
+
+// decryptStreamWith decrypts the stream data of object ref with the given
+// crypt filter (nil is the Identity filter).
+func (enc *encryptInfo) decryptStreamWith(cf *cryptFilter, ref Reference, r io.Reader) (io.Reader, error) {
 	if cf == nil {
 		return r, nil
 	}
